@@ -292,6 +292,22 @@ func verifyFunc(w *World, fi *FuncInfo, fc *FuncContract, sweep bool) (res *Func
 	vc.checkAnchors(fc)
 	// postconditions
 	rnames := vc.resultNames(fc, sig)
+	// a pointer parameter whose variable is rebound in the body (p = f(p)) no
+	// longer names the caller's object: postconditions then speak about the
+	// entry value (the callee contracts used say what happened to the object)
+	rebound := map[types.Object]bool{}
+	ast.Inspect(fi.Decl.Body, func(n ast.Node) bool {
+		if as, ok := n.(*ast.AssignStmt); ok {
+			for _, l := range as.Lhs {
+				if id, ok := ast.Unparen(l).(*ast.Ident); ok {
+					if o := info.ObjectOf(id); o != nil {
+						rebound[o] = true
+					}
+				}
+			}
+		}
+		return true
+	})
 	if fc != nil {
 		for ei, en := range fc.Ensures {
 			var conj, pcs, posts []Term
@@ -302,7 +318,7 @@ func verifyFunc(w *World, fi *FuncInfo, fc *FuncContract, sweep bool) (res *Func
 					env.old[k] = v
 				}
 				for _, p := range params {
-					if p.ptr && p.obj != nil {
+					if p.ptr && p.obj != nil && !rebound[p.obj] {
 						if v, ok := rp.st.vars[p.obj]; ok {
 							env.vars[p.name] = v
 							if p.name == fiRecvName(fi) {
@@ -381,7 +397,18 @@ func verifyLemma(w *World, lm *Lemma) (res *FuncResult) {
 		}
 	}()
 	env := &SpecEnv{vc: vc, vars: map[string]Value{}, old: map[string]Value{}, bound: map[string]Term{}, pkg: lm.Pkg}
-	c := vc.specBool(lm.Expr, env)
+	// the outermost universal quantifier is skolemised by the generator, so
+	// that the contracts of recursive pure functions can be instantiated on the
+	// ground terms of the goal (see pureResult)
+	expr := lm.Expr
+	if q, ok := expr.(CQuant); ok && q.Forall {
+		for _, p := range q.Vars {
+			s, gt := vc.specSort(p.Type, env.pkg)
+			env.bound[p.Name] = vc.freshOfSort(p.Name, s, gt)
+		}
+		expr = q.Body
+	}
+	c := vc.specBool(expr, env)
 	pkgShort := strings.TrimPrefix(lm.Pkg, modPath+"/")
 	ob := &Obligation{Name: pkgShort + ".lemma." + lm.Name, Kind: "lemma", Func: "lemma " + lm.Name, Pos: fmt.Sprintf("%s:%d", shortFile(lm.File), lm.Line),
 		PC: tBool(true), Cond: c, NDecl: len(vc.decls), NAssume: len(vc.assumes), Desc: lm.Src, Expect: "unsat", vc: vc, Props: fc.Props}
@@ -521,6 +548,7 @@ func (vc *VC) queryBody(ob *Obligation) string {
 			}
 		}
 	}
+	sb.WriteString("; @core\n")
 	for _, d := range vc.decls[:ob.NDecl] {
 		if m := localSymRe.FindString(d); m != "" && !rel[m] {
 			continue
